@@ -544,9 +544,19 @@ class Stage:
                     raise Exception("You attempted to set the value of a non-parameter. Did you mean ocp.set_initial()? Got " + str(parameter))
                 self._param_vals[parameter] = value
         for_all_primitives(parameter, value, action, "First argument to set_value must be a parameter or a simple concatenation of parameters", rhs_type=DM)
-        if self.master is not None and self.master.is_transcribed:
+        if self.master is not None and self.master.is_transcribed and self.master._guesses_depend_on_parameters():
             # guesses may be expressions of parameters (and the horizon may be one)
             self.master._reapply_initial()
+
+    def _guesses_depend_on_parameters(self):
+        for s in self.iter_stages(include_self=True):
+            pars = ca.vvcat([p for ps in s.parameters.values() for p in ps])
+            if pars.numel()==0: continue
+            exprs = [v for v in s._initial.values() if isinstance(v, MX)]
+            exprs += [e for e in [s._T, s._t0] if isinstance(e, MX)]
+            if any(depends_on(e, pars) for e in exprs):
+                return True
+        return False
 
 
     def set_initial(self, var, value, priority=True):
